@@ -94,12 +94,19 @@ def run(rep):
     rep.assumptions += ['the Hamiltonian (leapfrog, partial_momentum_refresh, initialize_trajectory, copy_state) is the environment in the kernel query; partial_momentum_refresh itself is checked from its MIR with the Math environment',
                         'array_normalize / esh_momentum_update return a unit vector (their numerical content is outside)', 'exact reals; round() lemma']
     rep.outside += ['floating-point rounding of the norm; the ESH closed form and its kinetic-energy change (the NRA queries over exp/sqrt did not finish within 3 minutes each - z3 returned unknown - so they are not claimed); array_normalize is decided over exact reals', 'more than %d halvings in one draw' % MAX_HALVINGS_EXPLORED]
-    parts(rep, [lambda: kernel(rep, mir, L, Ks), lambda: refresh_real(rep, mir, L), lambda: switch(rep, mir, L), lambda: unit_norm(rep, mir, L)])
+    parts(rep, [lambda: kernel(rep, mir, L, Ks), lambda: refresh_real(rep, mir, L), lambda: switch(rep, mir, L), lambda: chain_draw(rep, mir, L), lambda: unit_norm(rep, mir, L)])
 
 def kernel(rep, mir, L, Ks):
     for K in Ks:
         for dynamic in (False, True):
-            t0 = time.time(); Q = Kernel(mir, L, K, dynamic); outs = Q.run(); rep.paths += len(outs); rep.absorb_vm(Q.vm); A = Q.A
+            from ..vm import BoundExceeded
+            t0 = time.time(); Q = Kernel(mir, L, K, dynamic); Q.vm.loop_bound = 16 * (K + 2)      # unwinding assertion: <= K * 2^(halvings explored) + retries iterations of the step loop
+            try: outs = Q.run()
+            except BoundExceeded as e:
+                rep.absorb_vm(Q.vm)
+                rep.violated('C18 kernel K=%d dynamic=%s: termination' % (K, dynamic), 'kernel.termination', 'the step loop of mclmc_kernel runs more than %d times for a draw of %d base steps with at most %d halvings (unwinding assertion failed at %s): a draw does not take its bounded number of steps' % (Q.vm.loop_bound, K, MAX_HALVINGS_EXPLORED, e), model={'K': K, 'dynamic': dynamic})
+                continue
+            rep.paths += len(outs); rep.absorb_vm(Q.vm); A = Q.A
             bad = {}; kinds = set()
             for ((m, k, v), rs) in outs:
                 ev = m.ghost['events']; lf = [e for e in ev if e[0] == 'leapfrog']; oks = [e for e in lf if e[2] == 'ok']; divs = [e for e in lf if e[2] == 'div']; errs = [e for e in lf if e[2] == 'err']
@@ -180,6 +187,12 @@ def refresh_real(rep, mir, L):
             if kind == 'Microcanonical':
                 units = m2.ghost.get('unit_vectors', [])
                 if not units or not all(a.eq(b) for a, b in zip(vel, units[-1])): bad.append((kind, 'velocity after the refresh is not the output of a normalisation', [str(x) for x in vel]))
+                # what is normalised is p + nu z with the documented nu = sqrt((exp(2 h / L) - 1) / n), h = step_size * factor / 2, n = dim
+                ins = m2.ghost.get('normalize_inputs', [])
+                if ins:
+                    h = eps.v * fac.v / 2; nu = A.uf['sqrt'](A.uf['exp_m1'](2 * h / Ld.v) / 2)
+                    s = z3.Solver(); s.add(z3.Or(*[ins[-1][i] != v0[i].v + nu * z[i].v for i in range(2)]))
+                    if s.check() != z3.unsat: bad.append((kind, 'the vector that is normalised is not p + nu z with nu = sqrt((exp(2 h/L) - 1)/n)', str(s.model())[:200]))
             else:
                 h = eps.v * fac.v / 2; a = A.uf['exp'](-h / Ld.v); b = A.uf['sqrt'](1 - a * a)
                 s = z3.Solver(); s.add(z3.Or(*[vel[i] != a * v0[i].v + b * z[i].v for i in range(2)]))
@@ -189,7 +202,60 @@ def refresh_real(rep, mir, L):
                 if s.check() != z3.unsat: bad.append((kind, 'kinetic energy not updated with the refreshed velocity',))
     rep.paths += n
     if bad: rep.violated('C18 partial_momentum_refresh', 'refresh', 'momentum refresh: %s' % (bad[0],), model={'problems': [str(b)[:300] for b in bad]})
-    else: rep.holds('C18 partial_momentum_refresh: microcanonical velocity is re-normalised after the noise is added; Euclidean/ExactNormal refresh is v\' = alpha v + sqrt(1 - alpha^2) z with the kinetic energy updated (%d paths)' % n)
+    else: rep.holds('C18 partial_momentum_refresh: microcanonical velocity is (p + nu z) normalised with nu = sqrt((exp(2h/L) - 1)/n), h = step_size x factor / 2; Euclidean/ExactNormal refresh is v\' = alpha v + sqrt(1 - alpha^2) z with the kinetic energy updated (%d paths)' % n)
+
+def chain_draw(rep, mir, L):
+    """MclmcChain::draw bookkeeping around the kernel: the position returned is that of the kernel's state, adapt() gets that state and the
+    current draw index, the reported step size is the one in force for this draw (read before adapt installs the next), counters advance by one,
+    the next draw starts from the returned state; a kernel error changes nothing"""
+    from ..vm import SliceRef
+    fn = mir.method('MclmcChain', 'Chain', 'draw'); bad = []; n = 0; kk = VM(mir, RealAlg()).enums['KineticEnergyKind']; tk = VM(mir, RealAlg()).enums.get('MclmcTrajectoryKind')
+    for ok in (True, False):
+        A = RealAlg(); vm = VM(mir, A, inst={}); install_misc(vm)
+        m = Machine(); m.ghost['events'] = []; m.ghost['math'] = m.alloc(Opaque('math')); m.ghost['step'] = m.alloc(A.fresh('eps_in_force'))
+        new_state = Struct(('returned state',), 'StateTok'); old_state = Struct(('previous state',), 'StateTok')
+        info = L.make('MclmcInfo', {'energy_change': A.fresh('de'), 'diverging': z3.Bool('kernel_div'), 'divergence_info': NONE(), 'num_steps': z3.Int('kernel_steps'), 'average_step_size': A.fresh('avg')})
+        vm.add_model(r'^MclmcChain::<M, R, A, T>::mclmc_kernel$', lambda vm, m, c, a, ok=ok: (m.log('events', ('kernel',)), ret(m, OK(Struct((new_state, info))) if ok else ERR(Opaque('kernel error'))))[1])
+        vm.add_model(r'^RefCell::<M>::borrow_mut$', lambda vm, m, c, a: ret(m, Struct((Ref(m.ghost['math']),), 'RefMut')))
+        vm.add_model(r'^<RefMut<.*> as DerefMut>::deref_mut$', lambda vm, m, c, a: ret(m, vm.read_at(m, a[0].cell, a[0].path).f[0]))
+        vm.add_model(r'^<M as Math>::dim$', lambda vm, m, c, a: ret(m, 2))
+        vm.add_model(r'::write_position$', lambda vm, m, c, a: (m.log('events', ('write_position', vm.read_at(m, a[0].cell, a[0].path).f[0])), ret(m, UNIT))[1])
+        vm.add_model(r'^<Vec<f64> as Into<Box<\[f64\]>>>::into$', lambda vm, m, c, a: ret(m, Struct((Struct((SliceRef(m.alloc(a[0]), (), 0, len(a[0].items)),)), UNIT), 'Box')))
+        vm.add_model(r' as Hamiltonian<M>>::step_size$', lambda vm, m, c, a: ret(m, vm.read_at(m, m.ghost['step'], [])))
+        def adapt(vm, m, c, a):
+            st = vm.read_at(m, a[6].cell, a[6].path); m.log('events', ('adapt', a[4], st.f[0])); vm.write_at(m, m.ghost['step'], [], A.fresh('eps_next')); return ret(m, OK(UNIT))
+        vm.add_model(r' as AdaptStrategy<M>>::adapt::<R>$', adapt)
+        vm.add_model(r' as AdaptStrategy<M>>::new_collector$', lambda vm, m, c, a: (m.log('events', ('new_collector',)), ret(m, Opaque('fresh collector')))[1])
+        vm.add_model(r' as AdaptStrategy<M>>::is_tuning$', lambda vm, m, c, a: ret(m, z3.Bool('tuning_after_adapt') if any(e[0] == 'adapt' for e in m.ghost['events']) else z3.Bool('tuning_before_adapt')))
+        dc = z3.Int('draw_count')
+        ham = L.make('TransformedHamiltonian', {'ones': Opaque('o'), 'zeros': Opaque('z'), 'step_size': A.fresh('eps_field'), 'momentum_decoherence_length': NONE(), 'transformation': Opaque('T'),
+                                                'kinetic_energy_kind': Enum(kk.index('Microcanonical'), 'Microcanonical', (), 'KineticEnergyKind'), 'pool': Opaque('pool')})
+        chain = {f: Opaque(f) for f in L.fields('MclmcChain')}
+        chain.update({'hamiltonian': ham, 'draw_count': dc, 'switch_draw': z3.Int('switch_draw'), 'trajectory_kind': Enum(tk.index('Microcanonical'), 'Microcanonical', (), 'MclmcTrajectoryKind'), 'chain': z3.Int('chain_id'),
+                      'state': old_state, 'last_info': NONE(), 'math': Opaque('refcell'), 'collector': Opaque('used collector')})
+        cc = m.alloc(L.make('MclmcChain', chain)); m.pc += [dc >= 0, dc < 2 ** 40]
+        outs = vm.run(fn, [Ref(cc)], m); n += len(outs); rep.absorb_vm(vm)
+        for (m2, k, v) in outs:
+            ev = m2.ghost['events']; after = m2.mem[cc]; g = lambda f: L.get('MclmcChain', after, f)
+            if k != 'ret': bad.append(('MclmcChain::draw panics', str(v)[:100])); continue
+            if not ok:
+                if v.name != 'Err': bad.append(('a kernel error is swallowed',))
+                if g('state').f[0] != 'previous state' or not z3.eq(g('draw_count') + 0, dc + 0) or any(e[0] == 'adapt' for e in ev): bad.append(('a failed draw changes the chain or adapts',))
+                continue
+            if v.name != 'Ok': bad.append(('draw returns Err although the kernel succeeded',)); continue
+            pos, prog = v.f[0].f; gp = lambda f: L.get('Progress', prog, f)
+            wp = [e for e in ev if e[0] == 'write_position']; ad = [e for e in ev if e[0] == 'adapt']
+            if len(wp) != 1 or wp[0][1] != 'returned state': bad.append(('the returned position is not that of the state the kernel returned', ev))
+            if len(ad) != 1 or ad[0][2] != 'returned state' or not z3.eq(z3.simplify(ad[0][1] + 0), z3.simplify(dc + 0)): bad.append(('adapt() is not called once with the returned state and the current draw index', ev))
+            if [e[0] for e in ev].count('new_collector') != 1 or getattr(g('collector'), 'tag', None) != 'fresh collector': bad.append(('the collector is not replaced by a fresh one after adapt()',))
+            if g('state').f[0] != 'returned state': bad.append(('the next draw would not start from the returned state',))
+            sol = z3.Solver(); sol.add(*m2.pc)
+            sol.add(z3.Or(g('draw_count') != dc + 1, gp('draw') != dc, gp('chain') != z3.Int('chain_id'), gp('num_steps') != z3.Int('kernel_steps'), gp('step_size').v != z3.Real('eps_in_force'),
+                          (gp('tuning') if z3.is_expr(gp('tuning')) else z3.BoolVal(gp('tuning'))) != z3.Bool('tuning_after_adapt'), (gp('diverging') if z3.is_expr(gp('diverging')) else z3.BoolVal(gp('diverging'))) != z3.Bool('kernel_div')))
+            if sol.check() != z3.unsat: bad.append(('draw counter / Progress fields wrong (draw index, chain, steps and divergence of this kernel call, step size in force for this draw, tuning flag after adapt)', str(sol.model())[:200]))
+    rep.paths += n
+    if bad: rep.violated('C18 MclmcChain::draw bookkeeping', 'chain_draw', 'MclmcChain::draw: %s' % (bad[0],), model={'problems': [str(b)[:300] for b in bad[:5]]})
+    else: rep.holds('C18 MclmcChain::draw: position of the kernel\'s state, adapt(draw_count, that state) once, fresh collector, Progress = (draw index, chain, kernel steps / divergence, step size in force for this draw, tuning flag after adapt), counter + 1, next draw starts from the returned state; a kernel error changes nothing (%d paths)' % n)
 
 def switch(rep, mir, L):
     """MclmcChain::draw: the kind switches exactly at draw_count == switch_draw for EuclideanEarlyThenMicrocanonical, once, with a fresh momentum"""
